@@ -101,11 +101,11 @@ def pair_case(draw, tier="quick"):
         # the two operands hold the SAME numbers in DIFFERENT units (physically different ranges)
         unit1, unit2 = draw(st.sampled_from([("nm", "angstrom"), ("angstrom", "nm"), ("um", "nm"), ("nm", "um")]))
         # coarse uniform grid: the union grid then stays below ~2e5 points for a 1000x unit ratio
-        w1 = np.linspace(w1[0], max(w1[-1], w1[0] + 100.0), min(len(w1), 12))
-        k1 = "uniform"
-        raw = w1 * rs.factor("nm", unit1)
+        # round numbers (integer start and step): exactly uniform and bit-identical in both operands
+        raw = float(draw(st.integers(200, 2000))) + float(draw(st.integers(5, 200))) * np.arange(min(len(w1), 12))
+        w1 = raw * rs.factor(unit1, "nm")
         w2 = raw * rs.factor(unit2, "nm")
-        k2 = k1
+        k1 = k2 = "uniform"
         v1, v2 = v1[:len(w1)], np.resize(v2, len(w1))
     # per-wavelength densities: only add/subtract, and only with fill 0 (a non-zero fill value is a raw
     # number whose unit the property does not define)
@@ -113,7 +113,7 @@ def pair_case(draw, tier="quick"):
     return {"w1_nm": w1, "v1": v1, "w2_nm": w2, "v2": v2, "relation": relation, "grids": [k1, k2], "op": op,
             "method": method, "sampling": sampling, "fill": fv, "unit1": unit1, "unit2": unit2,
             "alt_unit": draw(st.sampled_from(UNITS)), "valueunit": "photlam" if density else None,
-            "use_operator": draw(st.booleans())}
+            "use_operator": draw(st.booleans()), "raw": raw if relation == "same_numbers" else None}
 
 
 def mk(w_nm, v, unit, valueunit):
@@ -167,6 +167,10 @@ def pair(case, ctx):
     vu = case["valueunit"]
     a = mk(case["w1_nm"], case["v1"], u1, vu)
     b = mk(case["w2_nm"], case["v2"], u2, vu)
+    if case.get("raw") is not None:
+        # the very same numbers in both operands, in different units
+        a.wave = np.array(case["raw"], dtype=float)
+        b.wave = np.array(case["raw"], dtype=float)
     a_phys, b_phys = snapshot_phys(a), snapshot_phys(b)
     a_raw = (a.wave.copy(), a.value.copy(), a.waveunit)
     same_grid = len(a.wave) == len(b.wave) and np.allclose(case["w1_nm"], case["w2_nm"], rtol=1e-15, atol=0)
@@ -306,7 +310,8 @@ def scalar_vector(case, ctx):
 
 # --- histories: operations interleaved with edits of the operands -----------------------------------
 
-EDITS = ["set_value", "inplace_slice", "inplace_scale", "set_wave", "crop", "pad", "to_unit", "resample"]
+EDITS = ["set_value", "inplace_slice", "inplace_slice", "inplace_mask", "inplace_ufunc", "inplace_scale", "set_wave",
+         "crop", "pad", "to_unit", "resample"]
 
 
 @st.composite
@@ -319,14 +324,15 @@ def history_case(draw, tier="quick"):
         w2 = w2 - min(0.0, w2[0] - 150.0)
     s = draw(st.integers(0, 2**31 - 1))
     rng = np.random.default_rng(s)
-    method = draw(st.sampled_from(["linear", "quadratic", "cubic"]))
+    method = draw(st.sampled_from(["linear", "quadratic", "cubic", "cubic"]))
+    fill = draw(st.sampled_from([0, 0, 1.0]))
     steps = []
     for _ in range(draw(st.integers(2, 8 if tier == "quick" else 14))):
         if draw(st.floats(0, 1)) < 0.5:
             steps.append({"kind": "op", "op": draw(st.sampled_from(list(OPS))), "swap": draw(st.booleans()),
                           "method": method if draw(st.floats(0, 1)) < 0.8 else draw(st.sampled_from(["linear", "quadratic", "cubic"])),
                           "sampling": draw(st.sampled_from(["min", "min", "left", "right"])),
-                          "fill": draw(st.sampled_from([0, 0, 1.0]))})
+                          "fill": fill if draw(st.floats(0, 1)) < 0.8 else draw(st.sampled_from([0, 1.0]))})
         else:
             steps.append({"kind": "edit", "edit": draw(st.sampled_from(EDITS)), "target": draw(st.sampled_from(["a", "b"])),
                           "x": draw(gen.finite(0.0, 1.0)), "y": draw(gen.finite(0.0, 1.0)),
@@ -348,6 +354,11 @@ def apply_edit(s, st_):
         i = int(st_["x"] * (n - 1))
         j = min(n, i + 1 + int(st_["y"] * (n - i)))
         s.value[i:j] = 0.25 + st_["y"]
+    elif e == "inplace_mask":
+        sel = np.asarray(s.wave) > np.asarray(s.wave)[int(st_["x"] * (n - 1))]
+        s.value[sel] = 0.5 * st_["y"]
+    elif e == "inplace_ufunc":
+        np.multiply(s.value, 0.5 + st_["x"], out=s.value)
     elif e == "inplace_scale":
         s.value *= 0.5 + st_["x"]
     elif e == "set_wave":
